@@ -7,7 +7,6 @@ import (
 	"github.com/pentops/golib/gl"
 	"github.com/pentops/j5/gen/j5/client/v1/client_j5pb"
 	"github.com/pentops/j5/gen/j5/ext/v1/ext_j5pb"
-	"github.com/pentops/j5/gen/j5/list/v1/list_j5pb"
 	"github.com/pentops/j5/gen/j5/schema/v1/schema_j5pb"
 	"github.com/pentops/j5/internal/j5s/sourcewalk"
 	"google.golang.org/genproto/googleapis/api/annotations"
@@ -155,8 +154,5 @@ func (ww *conversionVisitor) visitServiceMethodNode(service *serviceBuilder, nod
 		proto.SetExtension(methodBuilder.desc.Options, ext_j5pb.E_Method, method.Options)
 	}
 
-	if method.ListRequest != nil {
-		proto.SetExtension(methodBuilder.desc.Options, list_j5pb.E_ListRequest, method.ListRequest)
-	}
 	service.desc.Method = append(service.desc.Method, methodBuilder.desc)
 }
